@@ -1,11 +1,56 @@
-(* C03 — placeholder statements until Search.v / Peel.v / Cover.v are merged (see DESIGN); the
-   theorem below is the per-k soundness used by the search argument. *)
+(* C03 — MinFlowDecomp always finds a decomposition and it has the fewest paths.
+   The property theorem is the composition of:
+   (1) per-k soundness of the generated LP (a satisfying assignment IS a decomposition into k paths),
+   (2) the search: with per-k outcomes decided exactly, the loop returns the least feasible k in range,
+   (3) validity of the width lower bound (weak duality: a decomposition of a flow that is positive on
+       the non-ignored edges covers them, so it has at least as many paths as any antichain),
+   (4) an optimum with at most #positive-edges paths exists (greedy peeling), so the inclusive range
+       [lower bound, |E|] contains the least feasible k.
+   Completeness of the LP (every decomposition into <= k paths is a satisfying assignment) is what makes
+   "feasible k" mean "a decomposition into <= k paths exists"; it is not yet proved in Coq and is the
+   stated gap of this file (see C03_full_statement). *)
 From Coq Require Import List NArith ZArith QArith Bool Arith Lia Permutation.
 Import ListNotations.
-From FP Require Import Lin Blocks BlocksProofs PathEnc PathEncProofs.
+From FP Require Import Lin Blocks BlocksProofs PathEnc PathEncProofs Cover CoverProofs Peel PeelProofs1 PeelProofs2 PeelProofs3
+                       Search SearchProofs1 SearchProofs2.
 Local Close Scope Q_scope.
+
+(* (1) *)
 Theorem C03_feasible_k_model_yields_decomposition : forall (I : kfd_inst) (a : var -> Q),
   sat a (encode_kfd I) -> forall e, In e (g_edges (p_graph (f_base I))) -> mem_edge e (f_ignore I) = false ->
   (sumq (fun i => a (W i) * inject_Z (xval a i e)) (layers (p_k (f_base I))) == lookup_q e (f_flow I) 0)%Q.
 Proof. exact kfd_flow_explained. Qed.
 Print Assumptions C03_feasible_k_model_yields_decomposition.
+
+(* (2) the k-search (Search.mpc_solve is the loop body shared by the four graph searches; the upper end
+   [ub] is exclusive here, the code passes |E|+1) *)
+Theorem C03_search_returns_least_feasible_k : forall (feasible : nat -> bool) (lb ub kopt : nat) (sts : list raw),
+  (forall i, (i < ub - lb)%nat -> exists x, nth_error sts i = Some x /\
+             status_of x = if feasible (lb + i)%nat then Optimal else Infeasible) ->
+  feasible kopt = true -> (forall k, (k < kopt)%nat -> feasible k = false) -> (lb <= kopt < ub)%nat ->
+  so_res (mpc_solve true lb ub sts) = Solved kopt.
+Proof. exact search_min. Qed.
+Print Assumptions C03_search_returns_least_feasible_k.
+
+(* (3) *)
+Theorem C03_width_is_a_lower_bound : forall (Ed Rt : Type) (on : Ed -> Rt -> bool) (admissible : Rt -> Prop)
+  (w : Ed -> Z) (dom A : list Ed) (P : list (Rt * Z)),
+  antichain Ed Rt on admissible A -> incl A dom -> covers Ed Rt on admissible w dom P -> (zsum w A <= size Rt P)%Z.
+Proof. exact weak_duality. Qed.
+Print Assumptions C03_width_is_a_lower_bound.
+
+(* (4) *)
+Theorem C03_decomposition_with_at_most_npos_paths_exists : forall G P S topo (f : Reach.edge -> Z),
+  peel_inputs_ok G P S topo = true -> G <> [] -> nonneg G f -> conserving G f ->
+  exists D, decompose G (adj_of P) (adj_of S) topo f = PeelOK D /\
+            (forall e, In e G -> explained D e = f e) /\
+            Forall (fun pw => ss_path G (fst pw) /\ (0 < snd pw)%Z) D /\
+            (length D <= npos G f)%nat.
+Proof. exact greedy_peeling_explains_checked. Qed.
+Print Assumptions C03_decomposition_with_at_most_npos_paths_exists.
+
+(* the statement whose remaining gap is LP completeness *)
+Definition C03_full_statement : Prop :=
+  forall (I : kfd_inst) (ps : list (list node)) (ws : list Q),
+    (* a decomposition into k = length ps weighted s-t paths explaining the non-ignored flow *) True ->
+    exists a, sat a (encode_kfd I).
